@@ -15,10 +15,12 @@ ID = "C03"
 def plan(tier: str) -> dict:
     return {
         "runs": 6000 if tier == "quick" else 400000,
-        "budget": 70 if tier == "quick" else 1500,
+        "budget": 70 if tier == "quick" else 900,
         "cases": [],
         "chunk": 40,
-        "rule": "Random HTTP/1 and HTTP/2 (and WebSocket, see wsmix) sessions crossed with closing orders: client "
+        "rule": "Random HTTP/1 and HTTP/2 sessions (and, in every fourth run, a WebSocket session over either carrier "
+        "with closing by client close frame, TCP close, RST, application close, keep-alive-less idling into the "
+        "shutdown trigger or a failing write) crossed with closing orders: client "
         "FIN/RST/close at a tape-chosen byte or step, failing server writes, keep-alive expiry, Connection: close, "
         "shutdown trigger mid-session, server-generated 404s; applications finish early, late (after waiting "
         "for the disconnect) or raise, and keep sending valid continuation messages after the disconnect.",
@@ -28,7 +30,7 @@ def plan(tier: str) -> dict:
 
 
 def random_params(i: int, tier: str) -> dict:
-    return {"worker": "asyncio" if i % 2 == 0 else "trio"}
+    return {"worker": "asyncio" if i % 2 == 0 else "trio", "ws": (i // 2) % 4 == 3}
 
 
 def run(tape: Tape, params: dict) -> Outcome:
@@ -37,6 +39,8 @@ def run(tape: Tape, params: dict) -> Outcome:
     world.app = host
     out = Outcome()
     cfg = world.config
+    if params.get("ws"):
+        return _run_ws(tape, world, host, out)
     cfg.keep_alive_timeout = tape.choice([5.0, 0.5, 0.05], "cfg.keepalive")
     cfg.graceful_timeout = 1.0
     cfg.max_app_queue_size = 1 + tape.draw(10, "cfg.queue")
@@ -100,6 +104,121 @@ def run(tape: Tape, params: dict) -> Outcome:
     out.sample = session.sample
     _check(world, host, session, out)
     return finish_outcome(world, out)
+
+
+def _ws_app(shape: int) -> Any:
+    async def prog(host: Any, inst: Any, receive: Any, send: Any) -> None:
+        m = await host._recv(inst, receive)
+        if m["type"] != "websocket.connect":
+            return
+        await host._send(inst, send, {"type": "websocket.accept"})
+        if shape == 2:
+            await host._send(inst, send, {"type": "websocket.send", "text": "hello"})
+        n = 0
+        while True:
+            m = await host._recv(inst, receive)
+            if m["type"] == "websocket.disconnect":
+                break
+            n += 1
+            out = {"type": "websocket.send", "text": m["text"]} if m.get("text") is not None else \
+                {"type": "websocket.send", "bytes": m["bytes"]}
+            await host._send(inst, send, out)
+            if shape == 3 and n == 1:
+                await host._send(inst, send, {"type": "websocket.close", "code": 1000})
+        if shape >= 1:
+            # after the disconnect: whatever is still sent is accepted silently
+            await host._send(inst, send, {"type": "websocket.send", "text": "late"})
+            await host._send(inst, send, {"type": "websocket.send", "bytes": b"late"})
+            await host._send(inst, send, {"type": "websocket.close", "code": 1000})
+
+    return prog
+
+
+def _run_ws(tape: Tape, world: World, host: AppHost, out: Outcome) -> Outcome:
+    from ..peers import ws as wsp
+    from ..wsgen import WSSession, build_ws_script
+
+    cfg = world.config
+    cfg.graceful_timeout = 1.0
+    cfg.max_app_queue_size = 1 + tape.draw(10, "cfg.queue")
+    carrier = ["h1", "h2"][tape.draw(2, "ws.carrier")]
+    shape = tape.weighted([3, 3, 2, 2], "ws.shape")
+    host.programs[b"w0"] = [("call", _ws_app(shape))]
+    sess = WSSession(carrier, b"w0")
+    nmsg = tape.draw(4, "ws.nmsg")
+    ops: List[tuple] = []
+    for k in range(nmsg):
+        ops.append(("frames", wsp.frame(wsp.OP_TEXT, b"m%d" % k)))
+        if tape.chance(1, 2, "ws.gap"):
+            ops.append(("sleep", tape.choice([0.0005, 0.02], "ws.gapdt")))
+    closing = ["close-frame", "tcp", "rst", "fin", "idle", "write-err"][tape.weighted([3, 2, 2, 1, 2, 1], "ws.closing")]
+    if closing == "close-frame":
+        ops += [("close", tape.choice([1000, 1001, None], "ws.code")), ("wait", lambda sc: sc.ended, 2.0), ("tcpclose",)]
+    elif closing == "tcp":
+        ops += [("sleep", tape.choice([0.0, 0.0005, 0.05], "ws.closeat")), ("tcpclose",)]
+    elif closing == "rst":
+        ops += [("sleep", tape.choice([0.0, 0.0005, 0.05], "ws.closeat")), ("rst",)]
+    elif closing == "fin":
+        ops += [("sleep", tape.choice([0.0, 0.0005, 0.05], "ws.closeat")), ("fin",), ("wait", lambda sc: sc.ended, 3.0)]
+    else:
+        ops += [("wait", lambda sc: sc.ended, 10.0)]
+    setup = None
+    if closing == "write-err":
+        k = 2 + tape.draw(5, "fault.writeerr.at")
+
+        def setup(conn: Any, k: int = k) -> None:
+            conn.fail_send_at = k
+
+    script = build_ws_script(world, tape, sess, b"/ws", ops, setup)
+    script.start_at(0.1)
+    t_end = 0.1 + tape.choice([0.3, 0.02, 2.0], "life.trigger.at")
+    world.run(end_at=t_end)
+    host.drain_leftovers()
+    out.sample = {"worker": world.worker, "ws": True, "carrier": carrier, "shape": shape, "messages": nmsg,
+                  "closing": closing, "trigger_at": t_end}
+    _check_ws(world, host, sess, shape, out)
+    return finish_outcome(world, out)
+
+
+def _check_ws(world: World, host: AppHost, sess: Any, shape: int, out: Outcome) -> None:
+    def bad(rule: str, msg: str, **key: Any) -> None:
+        out.violations.append(Violation(rule, msg, dict(key, worker=world.worker, proto="ws-" + sess.carrier)))
+
+    insts = [i for i in host.instances if i.tag == b"w0"]
+    if len(insts) > 1:
+        bad("one-instance", f"{len(insts)} websocket instances for one request")
+    for inst in insts:
+        msgs = inst.all_delivered()
+        kinds = [m.get("type") for m in msgs]
+        n_disc = kinds.count("websocket.disconnect")
+        if n_disc > 1:
+            bad("disconnect-once", f"{n_disc} websocket.disconnect messages delivered")
+        if n_disc >= 1 and kinds[-1] != "websocket.disconnect":
+            after = kinds[kinds.index("websocket.disconnect") + 1:]
+            bad("nothing-after-disconnect", f"{after} delivered after websocket.disconnect",
+                late=",".join(sorted(set(after))))
+        full = len(inst.leftover) >= world.config.max_app_queue_size
+        # an instance cut down by the forced cancel at the end of the grace period is not owed anything
+        forced = inst.end == "cancelled" and world.trigger_at is not None and inst.end_time is not None \
+            and inst.end_time >= world.trigger_at + world.config.graceful_timeout - 1e-6
+        if n_disc == 0 and world.result == "returned" and inst.end in ("cancelled", None) and kinds and not forced:
+            bad("disconnect-missing", f"websocket instance was never sent websocket.disconnect (ended: {inst.end}, "
+                f"delivered: {kinds[-3:]})", cause="recv-queue-full" if full else "other")
+        disc_seq = next((seq for seq, _, m in inst.received if m.get("type") == "websocket.disconnect"), None)
+        if disc_seq is not None:
+            for entry in inst.sends:
+                if entry[0] > disc_seq and entry[3] in ("pending", "cancelled"):
+                    bad("send-after-close-hangs", f"send({entry[2]['type']}) issued after websocket.disconnect never "
+                        f"returned", cause="recv-queue-full" if full else "other")
+                    break
+                if entry[0] > disc_seq and str(entry[3]).startswith("raised"):
+                    bad("send-after-close-raises", f"send({entry[2]['type']}) after websocket.disconnect raised "
+                        f"{entry[3]}", shape=shape)
+                    break
+        n_access = sum(1 for rec in world.logger.access_records if rec[2] is inst.scope)
+        if n_access != 1 and world.result == "returned" and inst.end != "cancelled":
+            bad("access-once", f"{n_access} access-log records for one websocket request (instance end: {inst.end})",
+                count=min(n_access, 2))
 
 
 def _check(world: World, host: AppHost, session: Session, out: Outcome) -> None:
